@@ -693,6 +693,28 @@ func legacyReadsSSA(c *Ctx, p *packages.Package, fn *ssa.Function, attrs *types.
 			}
 		}
 	}
+	// strings.Count(v, sep) ==/!= n: the value has exactly n+1 parts
+	for _, tf := range w.Tree(fn) {
+		for _, b := range tf.Blocks {
+			for _, ins := range b.Instrs {
+				bin, ok := ins.(*ssa.BinOp)
+				if !ok || (bin.Op != token.NEQ && bin.Op != token.EQL) {
+					continue
+				}
+				n, isK := intConst(bin.Y)
+				cc, isCall := strip(bin.X).(*ssa.Call)
+				if !isK || !isCall || calleeName(cc) != "strings.Count" || len(cc.Call.Args) != 2 {
+					continue
+				}
+				if _, okSep := strConst(cc.Call.Args[1]); !okSep {
+					continue
+				}
+				if s, ok := readSource(w, fn, cc.Call.Args[0], 0); ok {
+					r.lenChecks[s.key] = n + 1
+				}
+			}
+		}
+	}
 	// the Cut form of "exactly two parts": the found flag is tested and the second part is tested for a further
 	// separator
 	for _, tf := range w.Tree(fn) {
